@@ -264,7 +264,7 @@ def main(a):
             else:
                 got = orch.exec_plan(l1, rep["ops"], ENV, args=wargs)["sig"]
             print("replay %s: expected %s, got %s" % (a.replay, rep.get("signature"), got))
-            if got == rep.get("signature"):
+            if orch.same_violation(got, rep.get("signature")):
                 print("VIOLATION property=%s replay=%s" % (PROP, a.replay))
                 return 1
             return 0
